@@ -6,6 +6,7 @@ mod engine;
 mod gen;
 mod isolate;
 mod mutate;
+mod netbed;
 mod props;
 mod sched;
 mod terms;
